@@ -19,10 +19,10 @@ def U.isCh : U → Bool
   | .ch _ _ => true
   | .gr _ _ _ => false
 
-/-- units separated by `k` blanks -/
+/-- units separated by `k` blanks or by ` + ` -/
 inductive Sq where
   | one (u : U)
-  | cons (u : U) (k : Nat) (s : Sq)
+  | cons (u : U) (g : Gap) (s : Sq)
 
 def Sq.head : Sq → U
   | .one u => u
@@ -42,8 +42,10 @@ def ux (st : Nat) : U → Str
     '(' :: ((if st = 0 then chainText it r else if st = 1 then chainText it (allPlus r) else explChain it r) ++
       ')' :: (if st = 4 then mulTxt dg else dg))
 
-def sepx (st k : Nat) (next : U) : Str :=
-  if st = 4 then symAdd else if st = 3 ∧ next.isCh = false then symAdd else List.replicate k ' '
+def sepx (st : Nat) (g : Gap) (next : U) : Str :=
+  match g with
+  | .plus => symAdd
+  | .blanks k => if st = 4 then symAdd else if st = 3 ∧ next.isCh = false then symAdd else List.replicate k ' '
 
 def tx (st : Nat) : Sq → Str
   | .one u => ux st u
@@ -98,7 +100,7 @@ theorem steps_digits (dg : Str) (hd : AllDig dg) : StepsTo 0 dg dg := by
   exact ⟨rfl, by simpa [N1] using this⟩
 
 theorem steps_seq (s : Sq) : s.valid → ∃ n, n ≤ (tx 0 s).length ∧ StepsTo n (tx 0 s) (tx 1 s) := by
-  have hq2 : Sep [')'] := ⟨[], ')', rfl, by simp, Or.inr rfl⟩
+  have hq2 : Sep [')'] := ⟨[], ')', rfl, by simp, Or.inl (Or.inr rfl)⟩
   have hlp : ∀ c ∈ ['('], Inert c := by decide
   induction s with
   | one u =>
@@ -115,7 +117,7 @@ theorem steps_seq (s : Sq) : s.valid → ∃ n, n ≤ (tx 0 s).length ∧ StepsT
       refine ⟨unres r + 0, ?_, by simpa [tx, ux] using this⟩
       have := unres_le r it; have := length_le_chainText r it hok hr
       simp only [tx, ux, if_true, List.length_cons, List.length_append]; omega
-  | cons u k s ih =>
+  | cons u g s ih =>
     intro hv
     obtain ⟨hu, hvs, h1⟩ := hv
     obtain ⟨m, hm, hs⟩ := ih hvs
@@ -125,31 +127,42 @@ theorem steps_seq (s : Sq) : s.valid → ∃ n, n ≤ (tx 0 s).length ∧ StepsT
       obtain ⟨Y0, e0⟩ := tx_head_gr 0 s hg
       obtain ⟨Y1, e1⟩ := tx_head_gr 1 s hg
       rw [e0, e1] at hs
-      have hs' := steps_uncons '(' (by decide) m _ _ hs
-      have hq1 : Sep (List.replicate k ' ' ++ ['(']) := ⟨_, '(', rfl, blanks_eq k, Or.inl rfl⟩
-      have := steps_sep _ hq1 (unres r) _ _ m _ _ (steps_chain (unres r) it r hu.1 hu.2 rfl) hs'
-      refine ⟨unres r + m, ?_, by simpa [tx, ux, sepx, e0, e1, List.append_assoc] using this⟩
-      have := unres_le r it; have := length_le_chainText r it hu.1 hu.2
-      simp only [tx, ux, if_true, List.length_cons, List.length_append]; omega
+      cases g with
+      | blanks k =>
+        have hs' := steps_uncons '(' (by decide) m _ _ hs
+        have hq1 : Sep (List.replicate k ' ' ++ ['(']) := ⟨_, '(', rfl, blanks_eq k, Or.inl (Or.inl rfl)⟩
+        have := steps_sep _ hq1 (unres r) _ _ m _ _ (steps_chain (unres r) it r hu.1 hu.2 rfl) hs'
+        refine ⟨unres r + m, ?_, by simpa [tx, ux, sepx, e0, e1, List.append_assoc] using this⟩
+        have := unres_le r it; have := length_le_chainText r it hu.1 hu.2
+        simp only [tx, ux, if_true, List.length_cons, List.length_append]; omega
+      | plus =>
+        have hs' := steps_cons_inert ' ' (by decide) m _ _ hs
+        have hq1 : Sep ([' '] ++ ['+']) := ⟨[' '], '+', rfl, by simp, Or.inr ⟨rfl, by simp⟩⟩
+        have := steps_sep _ hq1 (unres r) _ _ m _ _ (steps_chain (unres r) it r hu.1 hu.2 rfl) hs'
+        refine ⟨unres r + m, ?_, by simpa [tx, ux, sepx, e0, e1, symAdd, List.append_assoc] using this⟩
+        have := unres_le r it; have := length_le_chainText r it hu.1 hu.2
+        simp only [tx, ux, if_true, List.length_cons, List.length_append]; omega
     | gr it r dg =>
       obtain ⟨hok, hr, hd⟩ := hu
-      have hp : ∀ c ∈ dg ++ List.replicate k ' ', Inert c := by
+      have hp : ∀ c ∈ dg ++ sepx 0 g s.head, Inert c := by
         intro c hc
         rcases List.mem_append.mp hc with h | h
         · exact inert_of_isDig c (hd c h)
-        · exact blanks_inert k c h
+        · cases g with
+          | blanks k => exact blanks_inert k c (by simpa [sepx] using h)
+          | plus => exact inert_symAdd c (by simpa [sepx] using h)
+      have e01 : sepx 1 g s.head = sepx 0 g s.head := by cases g <;> simp [sepx]
       have s1 := steps_prefix _ hp m _ _ hs
       have sB := steps_sep [')'] hq2 (unres r) _ _ m _ _ (steps_chain (unres r) it r hok hr rfl) s1
       have := steps_prefix ['('] hlp _ _ _ sB
-      refine ⟨unres r + m, ?_, by simpa [tx, ux, sepx, List.append_assoc] using this⟩
+      refine ⟨unres r + m, ?_, by simpa [tx, ux, e01, List.append_assoc] using this⟩
       have := unres_le r it; have := length_le_chainText r it hok hr
       simp only [tx, ux, if_true, List.length_cons, List.length_append]; omega
-
 
 /-! ### pass 2 -/
 
 /-- pass 2 on a resolved chain followed by blanks and a parenthesis -/
-theorem P2_chain_X (bl : Str) (e : Char) (s0 tX : Str) (hbl : ∀ c ∈ bl, c = ' ') (he : Mark e)
+theorem P2_chain_X (bl : Str) (e : Char) (s0 tX : Str) (hbl : ∀ c ∈ bl, c = ' ') (he : Mark e ∨ bl ≠ [])
     (h : P2 (bl ++ e :: s0) tX) (r : Rest) (it : Item) (hok : it.OK) (hr : restOK r) :
     P2 (chainText it (allPlus r) ++ (bl ++ e :: s0)) (explChain it r ++ tX) := by
   apply P2_chain_tail _ _ _ r it hok hr
@@ -157,7 +170,11 @@ theorem P2_chain_X (bl : Str) (e : Char) (s0 tX : Str) (hbl : ∀ c ∈ bl, c = 
   cases bl with
   | nil =>
     simp only [List.nil_append] at h ⊢
-    exact P2_item_mark it' s0 tX e he hok' h
+    have he' : Mark e := by
+      rcases he with he | hne
+      · exact he
+      · exact absurd rfl hne
+    exact P2_item_mark it' s0 tX e he' hok' h
   | cons b t =>
     have hb : b = ' ' := hbl b (by simp)
     subst hb
@@ -181,9 +198,9 @@ theorem P2_seq (s : Sq) : s.valid → P2 (tx 1 s) (tx 2 s) := by
           · decide
           · exact inert_of_isDig c (hd c h)) P2_nil
         simpa using this
-      have := P2_inert '(' _ _ (by decide) (P2_chain_X [] ')' dg _ (by simp) (Or.inr rfl) hdd r it hok hr)
+      have := P2_inert '(' _ _ (by decide) (P2_chain_X [] ')' dg _ (by simp) (Or.inl (Or.inr rfl)) hdd r it hok hr)
       simpa [tx, ux] using this
-  | cons u k s ih =>
+  | cons u g s ih =>
     intro hv
     obtain ⟨hu, hvs, h1⟩ := hv
     have hs := ih hvs
@@ -191,24 +208,32 @@ theorem P2_seq (s : Sq) : s.valid → P2 (tx 1 s) (tx 2 s) := by
     | ch it r =>
       have hg : s.head.isCh = false := h1 rfl
       obtain ⟨Y1, e1⟩ := tx_head_gr 1 s hg
-      have hX := P2_run (List.replicate k ' ') _ _ (blanks_inert k) hs
-      rw [e1] at hX
-      have := P2_chain_X _ '(' Y1 _ (blanks_eq k) (Or.inl rfl) hX r it hu.1 hu.2
-      simpa [tx, ux, sepx, e1, List.append_assoc] using this
+      cases g with
+      | blanks k =>
+        have hX := P2_run (List.replicate k ' ') _ _ (blanks_inert k) hs
+        rw [e1] at hX
+        have := P2_chain_X _ '(' Y1 _ (blanks_eq k) (Or.inl (Or.inl rfl)) hX r it hu.1 hu.2
+        simpa [tx, ux, sepx, e1, List.append_assoc] using this
+      | plus =>
+        have hX := P2_run symAdd _ _ inert_symAdd hs
+        have := P2_chain_X [' '] '+' (' ' :: tx 1 s) _ (by simp) (Or.inr (by simp)) hX r it hu.1 hu.2
+        simpa [tx, ux, sepx, symAdd, List.append_assoc] using this
     | gr it r dg =>
       obtain ⟨hok, hr, hd⟩ := hu
-      have hp : ∀ c ∈ ')' :: (dg ++ List.replicate k ' '), Inert c := by
+      have e12 : sepx 2 g s.head = sepx 1 g s.head := by cases g <;> simp [sepx]
+      have hp : ∀ c ∈ ')' :: (dg ++ sepx 1 g s.head), Inert c := by
         intro c hc
         rcases List.mem_cons.mp hc with rfl | h
         · decide
         · rcases List.mem_append.mp h with h | h
           · exact inert_of_isDig c (hd c h)
-          · exact blanks_inert k c h
+          · cases g with
+            | blanks k => exact blanks_inert k c (by simpa [sepx] using h)
+            | plus => exact inert_symAdd c (by simpa [sepx] using h)
       have hX := P2_run _ _ _ hp hs
       simp only [List.cons_append] at hX
-      have := P2_inert '(' _ _ (by decide) (P2_chain_X [] ')' _ _ (by simp) (Or.inr rfl) hX r it hok hr)
-      simpa [tx, ux, sepx, List.append_assoc] using this
-
+      have := P2_inert '(' _ _ (by decide) (P2_chain_X [] ')' _ _ (by simp) (Or.inl (Or.inr rfl)) hX r it hok hr)
+      simpa [tx, ux, e12, List.append_assoc] using this
 
 /-! ### pass 3 -/
 
@@ -413,6 +438,24 @@ theorem I3_unit_tail (r : Rest) (it : Item) (hok : it.OK) (hr : restOK r) (dg : 
     · decide
     · exact (hdl c h).1
 
+/-- an explicit ` + ` in front of `(` is left alone by pass 3 -/
+theorem P3_plus_lparen (Y tY : Str) (h : P3 Y tY) :
+    P3 (symAdd ++ '(' :: Y) (symAdd ++ '(' :: tY) ∧ look3 (symAdd ++ '(' :: Y) = true := by
+  have h0 : P3 (' ' :: '(' :: Y) (' ' :: '(' :: tY) := by
+    intro fuel hf
+    cases fuel with
+    | zero => simp at hf
+    | succ n =>
+      simp only [List.length_cons] at hf
+      have e1 : notSpec3 ' ' = false := by decide
+      have e2 : isWs ' ' = true := by decide
+      have e3 : isWs '(' = false := by decide
+      simp [pass3, List.span_eq_takeWhile_dropWhile, List.takeWhile_cons, List.dropWhile_cons, e1, e2, e3,
+        h n (by omega)]
+  have h1 := P3_copy '+' _ _ (look3_stop '+' _ (by decide) (by decide) (by decide)) h0
+  have hl : look3 (' ' :: '+' :: ' ' :: '(' :: Y) = true := look3_ws_stop '+' _ (by decide) (by decide)
+  exact ⟨P3_copy ' ' _ _ hl h1, hl⟩
+
 theorem fin3_nil : Fin3 [] [] := fin3_run [] [] (by decide) (P3_of_I3 [] I3_nil)
 
 theorem look_nil : ∀ c ∈ ([] : Str), c ≠ '(' ∧ isWs c = false := by intro c hc; cases hc
@@ -431,7 +474,7 @@ theorem P3_seq_aux (s : Sq) : s.valid → P3 (tx 2 s) (tx 3 s) ∧
       obtain ⟨hok, hr, hd⟩ := hv
       have := P3_lparen _ _ (P3_of_I3 _ (I3_unit_tail r it hok hr dg hd))
       exact ⟨by simpa [tx, ux] using this, fun h => by simp [Sq.head, U.isCh] at h⟩
-  | cons u k s ih =>
+  | cons u g s ih =>
     intro hv
     obtain ⟨hu, hvs, h1⟩ := hv
     obtain ⟨hs, hsw⟩ := ih hvs
@@ -442,51 +485,75 @@ theorem P3_seq_aux (s : Sq) : s.valid → P3 (tx 2 s) (tx 3 s) ∧
       obtain ⟨Y3, e3⟩ := tx_head_gr 3 s hg
       rw [e2, e3] at hs
       have hY := P3_lparen_tail _ _ hs
-      have hfin : Fin3 (List.replicate k ' ' ++ '(' :: Y2) (symAdd ++ '(' :: Y3) :=
-        fun w0 l hw hl => P3_before (List.replicate k ' ') Y2 Y3 (blanks_ws k) hY l hl w0 hw
-      have hw := fun w hw => P3_explChain_gen_w _ _ hfin r it hu.1 hu.2 w hw
-      refine ⟨by simpa [tx, ux, sepx, hg, e2, e3, List.append_assoc] using hw [] look_nil, fun _ w hw' => ?_⟩
-      simpa [tx, ux, sepx, hg, e2, e3, List.append_assoc] using hw w hw'
+      cases g with
+      | blanks k =>
+        have hfin : Fin3 (List.replicate k ' ' ++ '(' :: Y2) (symAdd ++ '(' :: Y3) :=
+          fun w0 l hw hl => P3_before (List.replicate k ' ') Y2 Y3 (blanks_ws k) hY l hl w0 hw
+        have hw := fun w hw => P3_explChain_gen_w _ _ hfin r it hu.1 hu.2 w hw
+        refine ⟨by simpa [tx, ux, sepx, hg, e2, e3, List.append_assoc] using hw [] look_nil, fun _ w hw' => ?_⟩
+        simpa [tx, ux, sepx, hg, e2, e3, List.append_assoc] using hw w hw'
+      | plus =>
+        obtain ⟨hp, hl⟩ := P3_plus_lparen Y2 Y3 hY
+        have hfin : Fin3 (symAdd ++ '(' :: Y2) (symAdd ++ '(' :: Y3) := fin3_run _ _ hl hp
+        have hw := fun w hw => P3_explChain_gen_w _ _ hfin r it hu.1 hu.2 w hw
+        refine ⟨by simpa [tx, ux, sepx, hg, e2, e3, List.append_assoc] using hw [] look_nil, fun _ w hw' => ?_⟩
+        simpa [tx, ux, sepx, hg, e2, e3, List.append_assoc] using hw w hw'
     | gr it r dg =>
       obtain ⟨hok, hr, hd⟩ := hu
       refine ⟨?_, fun h => by simp [Sq.head, U.isCh] at h⟩
+      have hlook : ∀ c ∈ ')' :: dg, c ≠ '(' ∧ isWs c = false := by
+        intro c hc
+        rcases List.mem_cons.mp hc with rfl | h
+        · decide
+        · exact dig_look dg hd c h
       by_cases hg : s.head.isCh = false
       · obtain ⟨Y2, e2⟩ := tx_head_gr 2 s hg
         obtain ⟨Y3, e3⟩ := tx_head_gr 3 s hg
         rw [e2, e3] at hs
         have hY := P3_lparen_tail _ _ hs
-        have := P3_lparen _ _ (P3_explChain_gen _ _ (fin3_close_paren dg (List.replicate k ' ') Y2 Y3 hd (blanks_ws k) hY) r it hok hr)
-        simpa [tx, ux, sepx, hg, e2, e3, List.append_assoc] using this
-      · have hc : s.head.isCh = true := by simpa using hg
-        have hlook : ∀ c ∈ ')' :: dg, c ≠ '(' ∧ isWs c = false := by
-          intro c hc
-          rcases List.mem_cons.mp hc with rfl | h
-          · decide
-          · exact dig_look dg hd c h
-        cases k with
-        | zero =>
-          have hfin : Fin3 (')' :: (dg ++ tx 2 s)) (')' :: (dg ++ tx 3 s)) := by
-            intro w0 l hw hl
-            have := hsw hc (w0 ++ l :: ')' :: dg) (by
-              intro c hc'
-              rcases List.mem_append.mp hc' with h | h
-              · exact hw c h
-              · rcases List.mem_cons.mp h with rfl | h
-                · exact notSpec3_look _ hl
-                · exact hlook c h)
-            simpa [List.append_assoc] using this
-          have := P3_lparen _ _ (P3_explChain_gen _ _ hfin r it hok hr)
-          simpa [tx, ux, sepx, hc, List.append_assoc] using this
-        | succ k' =>
-          have hhead := tx_head_ch s hvs hc
-          have hb := P3_blanks (k' + 1) _ _ hs hhead
-          have hl3 : look3 (List.replicate (k' + 1) ' ' ++ tx 2 s) = true := by
-            rw [List.replicate_succ, List.cons_append]
-            exact look3_blank _ _ (blanks_eq k') hhead
-          have hrest := P3_run (')' :: dg) _ _ hlook hl3 hb
-          have hl3' := look3_run (')' :: dg) _ hlook hl3
+        cases g with
+        | blanks k =>
+          have := P3_lparen _ _ (P3_explChain_gen _ _ (fin3_close_paren dg (List.replicate k ' ') Y2 Y3 hd (blanks_ws k) hY) r it hok hr)
+          simpa [tx, ux, sepx, hg, e2, e3, List.append_assoc] using this
+        | plus =>
+          obtain ⟨hp, hl⟩ := P3_plus_lparen Y2 Y3 hY
+          have hrest := P3_run (')' :: dg) _ _ hlook hl hp
+          have hl3' := look3_run (')' :: dg) _ hlook hl
           have := P3_lparen _ _ (P3_explChain_gen _ _ (fin3_run _ _ hl3' hrest) r it hok hr)
-          simpa [tx, ux, sepx, hc, List.append_assoc] using this
+          simpa [tx, ux, sepx, hg, e2, e3, List.append_assoc] using this
+      · have hc : s.head.isCh = true := by simpa using hg
+        have hhead := tx_head_ch s hvs hc
+        cases g with
+        | plus =>
+          obtain ⟨hp, hl⟩ := P3_op' '+' (Or.inl rfl) _ _ hs hhead
+          have hrest := P3_run (')' :: dg) _ _ hlook hl hp
+          have hl3' := look3_run (')' :: dg) _ hlook hl
+          have := P3_lparen _ _ (P3_explChain_gen _ _ (fin3_run _ _ hl3' hrest) r it hok hr)
+          simpa [tx, ux, sepx, hc, symAdd, List.append_assoc] using this
+        | blanks k =>
+          cases k with
+          | zero =>
+            have hfin : Fin3 (')' :: (dg ++ tx 2 s)) (')' :: (dg ++ tx 3 s)) := by
+              intro w0 l hw hl
+              have := hsw hc (w0 ++ l :: ')' :: dg) (by
+                intro c hc'
+                rcases List.mem_append.mp hc' with h | h
+                · exact hw c h
+                · rcases List.mem_cons.mp h with rfl | h
+                  · exact notSpec3_look _ hl
+                  · exact hlook c h)
+              simpa [List.append_assoc] using this
+            have := P3_lparen _ _ (P3_explChain_gen _ _ hfin r it hok hr)
+            simpa [tx, ux, sepx, hc, List.append_assoc] using this
+          | succ k' =>
+            have hb := P3_blanks (k' + 1) _ _ hs hhead
+            have hl3 : look3 (List.replicate (k' + 1) ' ' ++ tx 2 s) = true := by
+              rw [List.replicate_succ, List.cons_append]
+              exact look3_blank _ _ (blanks_eq k') hhead
+            have hrest := P3_run (')' :: dg) _ _ hlook hl3 hb
+            have hl3' := look3_run (')' :: dg) _ hlook hl3
+            have := P3_lparen _ _ (P3_explChain_gen _ _ (fin3_run _ _ hl3' hrest) r it hok hr)
+            simpa [tx, ux, sepx, hc, List.append_assoc] using this
 
 theorem P3_seq (s : Sq) (hv : s.valid) : P3 (tx 2 s) (tx 3 s) := (P3_seq_aux s hv).1
 
@@ -653,7 +720,7 @@ theorem P4_seq (s : Sq) : s.valid → P4 (tx 3 s) (tx 4 s) := by
       have hnp := explChain_noparen r it hok hr
       have := P4_copy '(' _ _ (by decide) (P4_run _ _ _ (fun c hc => (hnp c hc).2) (P4_close_end dg hd))
       simpa [tx, ux] using this
-  | cons u k s ih =>
+  | cons u g s ih =>
     intro hv
     obtain ⟨hu, hvs, h1⟩ := hv
     have hs := ih hvs
@@ -663,17 +730,20 @@ theorem P4_seq (s : Sq) : s.valid → P4 (tx 3 s) (tx 4 s) := by
       have hnp := explChain_noparen r it hu.1 hu.2
       have hsa : ∀ c ∈ symAdd, c ≠ ')' := by decide
       have := P4_run _ _ _ (fun c hc => (hnp c hc).2) (P4_run _ _ _ hsa hs)
-      simpa [tx, ux, sepx, hg, List.append_assoc] using this
+      cases g <;> simpa [tx, ux, sepx, hg, List.append_assoc] using this
     | gr it r dg =>
       obtain ⟨hok, hr, hd⟩ := hu
       have hnp := explChain_noparen r it hok hr
-      by_cases hg : s.head.isCh = false
-      · have := P4_copy '(' _ _ (by decide) (P4_run _ _ _ (fun c hc => (hnp c hc).2) (P4_close_plus dg _ _ hd hs))
-        simpa [tx, ux, sepx, hg, List.append_assoc] using this
-      · have hc : s.head.isCh = true := by simpa using hg
-        have := P4_copy '(' _ _ (by decide) (P4_run _ _ _ (fun c hc => (hnp c hc).2)
-          (P4_close_gen dg _ _ k hd hs (tx_head_ch4 s hvs hc)))
-        simpa [tx, ux, sepx, hc, List.append_assoc] using this
+      have hplus := P4_copy '(' _ _ (by decide) (P4_run _ _ _ (fun c hc => (hnp c hc).2) (P4_close_plus dg _ _ hd hs))
+      cases g with
+      | plus => simpa [tx, ux, sepx, List.append_assoc] using hplus
+      | blanks k =>
+        by_cases hg : s.head.isCh = false
+        · simpa [tx, ux, sepx, hg, List.append_assoc] using hplus
+        · have hc : s.head.isCh = true := by simpa using hg
+          have := P4_copy '(' _ _ (by decide) (P4_run _ _ _ (fun c hc => (hnp c hc).2)
+            (P4_close_gen dg _ _ k hd hs (tx_head_ch4 s hvs hc)))
+          simpa [tx, ux, sepx, hc, List.append_assoc] using this
 
 /-- `preprocess` on a sequence of units -/
 theorem preprocess_seq (s : Sq) (hv : s.valid) : preprocess (tx 0 s) = tx 4 s := by
@@ -692,14 +762,17 @@ def F.isGr : F → Bool
 
 def F.headGr : F → Bool
   | .seq _ a _ => a.isGr
+  | .plus a _ => a.isGr
   | f => f.isGr
 
-/-- a sequence `u₁ ␣* u₂ ␣* … uₙ` (right-nested juxtapositions) of units, each a parenthesis-free
+/-- a sequence `u₁ ␣* u₂ ␣* … uₙ` (right-nested juxtapositions or explicit ` + `) of units, each a parenthesis-free
     formula or a parenthesised parenthesis-free group without or with a count, with any number
     of blanks (also none) between them; two parenthesis-free units are never adjacent (together
     they are one such unit) -/
 def F.units : F → Prop
   | .seq k a b => (a.flat ∧ b.flat) ∨
+      ((a.flat ∨ a.group1) ∧ b.units ∧ (a.isGr = false → b.headGr = true))
+  | .plus a b => (a.flat ∧ b.flat) ∨
       ((a.flat ∨ a.group1) ∧ b.units ∧ (a.isGr = false → b.headGr = true))
   | f => f.flat ∨ f.group1
 
@@ -748,7 +821,22 @@ theorem seq_spec (f : F) : f.units → f.spAll SpeciesShape →
   | count g n _ => intro h hs; exact one_spec _ h rfl hs
   | mulx g n _ => intro h hs; exact one_spec _ h rfl hs
   | group g _ => intro h hs; exact one_spec _ h rfl hs
-  | plus a b _ _ => intro h hs; exact one_spec _ h rfl hs
+  | plus a b _ ihb =>
+    intro h hs
+    rcases h with ⟨ha, hb⟩ | ⟨ha, hb, c1⟩
+    · obtain ⟨u, h1, h2, h3, h4⟩ := unit_spec (.plus a b) (Or.inl ⟨ha, hb⟩) hs
+      refine ⟨.one u, h1, h2, h3, ?_⟩
+      simp only [Sq.head, F.headGr, h4, flat_not_gr a ha]
+      rfl
+    · obtain ⟨u, u1, u2, u3, u4⟩ := unit_spec a ha hs.1
+      obtain ⟨sb, s1, s2, s3, s4⟩ := ihb hb hs.2
+      refine ⟨.cons u .plus sb, ⟨u1, s1, ?_⟩, ?_, ?_, ?_⟩
+      · intro hu
+        rw [u4] at hu
+        rw [s4, c1 (by simpa using hu)]; rfl
+      · simp [tx, sepx, u2, s2, render]
+      · simp [tx, sepx, u3, s3, renderExplicit]
+      · simp [Sq.head, F.headGr, u4]
   | seq k a b _ ihb =>
     intro h hs
     rcases h with ⟨ha, hb⟩ | ⟨ha, hb, c1⟩
@@ -758,7 +846,7 @@ theorem seq_spec (f : F) : f.units → f.spAll SpeciesShape →
       rfl
     · obtain ⟨u, u1, u2, u3, u4⟩ := unit_spec a ha hs.1
       obtain ⟨sb, s1, s2, s3, s4⟩ := ihb hb hs.2
-      refine ⟨.cons u k sb, ⟨u1, s1, ?_⟩, ?_, ?_, ?_⟩
+      refine ⟨.cons u (.blanks k) sb, ⟨u1, s1, ?_⟩, ?_, ?_, ?_⟩
       · intro hu
         rw [u4] at hu
         rw [s4, c1 (by simpa using hu)]; rfl
